@@ -80,9 +80,11 @@ func prelude() string {
 		for i := range c.Props {
 			fmt.Fprintf(&sb, "  public function set%d($x) { $this->p%d = $x; return 1; }\n", i, i)
 		}
+		for k, t := range c.Params { // a method parameter declared with the k-th type parameter
+			fmt.Fprintf(&sb, "  public function take%d(%s $x) { return 1; }\n", k, t)
+		}
 		sb.WriteString("}\n")
 	}
-	sb.WriteString("$I = [];\n")
 	return sb.String()
 }
 
@@ -112,20 +114,102 @@ func modelClasses() string {
 // ------------------------------------------------------------ operations
 
 type op struct {
-	K    string   `json:"k"`              // inst | raw | ctor | write | read
+	K    string   `json:"k"`              // inst | raw | ctor | write | read | call
 	C    int      `json:"c,omitempty"`    // class id (inst/raw/ctor)
 	Args []string `json:"args,omitempty"` // type arguments
-	I    int      `json:"i,omitempty"`    // object index (write/read)
-	P    int      `json:"p,omitempty"`    // member index
+	I    int      `json:"i,omitempty"`    // object index (write/read/call)
+	P    int      `json:"p,omitempty"`    // member index (write/read); index of the type parameter (call: `take<P>(T_P $x)`)
 	V    string   `json:"v,omitempty"`    // value token
 	Via  string   `json:"via,omitempty"`  // write form: "" direct | method | dyn
+	S    int      `json:"s,omitempty"`    // 0: a statement of its own; k>0: executed through shared site k (code that is re-executed)
 }
 
 type gcase struct {
-	Ops []op `json:"ops"`
+	Ops  []op   `json:"ops"`
+	Mode string `json:"mode,omitempty"` // how shared sites are realised: func | closure | method | static | loop ("" = func when some S>0)
+}
+
+var siteModes = []string{"func", "closure", "method", "static", "loop"}
+
+func (g gcase) mode() string {
+	if g.Mode != "" {
+		return g.Mode
+	}
+	return "func"
+}
+
+func (g gcase) sited() bool {
+	for _, o := range g.Ops {
+		if o.S > 0 {
+			return true
+		}
+	}
+	return false
+}
+
+// siteText: the source text of the site an operation needs (two operations can share a site iff equal).
+func (o op) siteText() string {
+	switch o.K {
+	case "inst", "raw", "ctor":
+		return fmt.Sprintf("%s|%d|%s", o.K, o.C, strings.Join(o.Args, ","))
+	case "write":
+		return fmt.Sprintf("write|%d|%s", o.P, o.Via)
+	}
+	return fmt.Sprintf("%s|%d", o.K, o.P)
+}
+
+// canonical: every operation through a shared site, one site per distinct text.
+func canonical(ops []op) []op {
+	ids := map[string]int{}
+	res := append([]op{}, ops...)
+	for i := range res {
+		t := res[i].siteText()
+		if ids[t] == 0 {
+			ids[t] = len(ids) + 1
+		}
+		res[i].S = ids[t]
+	}
+	return res
+}
+
+func straight(ops []op) []op {
+	res := append([]op{}, ops...)
+	for i := range res {
+		res[i].S = 0
+	}
+	return res
+}
+
+// repeatedCreation: some `new` text occurs twice (so its canonical site is re-executed).
+func repeatedCreation(ops []op) bool {
+	seen := map[string]bool{}
+	for _, o := range ops {
+		switch o.K {
+		case "inst", "raw", "ctor":
+			t := o.siteText()
+			if seen[t] {
+				return true
+			}
+			seen[t] = true
+		}
+	}
+	return false
 }
 
 func (o op) model() string {
+	if o.S > 0 { // the node of a `new` is state of the model (Model.Gen.resolveAt); other sites are not
+		switch o.K {
+		case "inst":
+			if len(o.Args) == 0 {
+				return fmt.Sprintf("instat %d %d", o.S, o.C)
+			}
+			return fmt.Sprintf("instat %d %d %s", o.S, o.C, strings.Join(o.Args, ","))
+		case "raw":
+			return fmt.Sprintf("rawat %d %d", o.S, o.C)
+		case "ctor":
+			return fmt.Sprintf("ctorat %d %d %s %d %s", o.S, o.C, strings.Join(o.Args, ","), 0, o.V)
+		}
+	}
 	switch o.K {
 	case "inst":
 		if len(o.Args) == 0 {
@@ -136,6 +220,8 @@ func (o op) model() string {
 		return fmt.Sprintf("raw %d", o.C)
 	case "ctor":
 		return fmt.Sprintf("ctor %d %s %d %s", o.C, strings.Join(o.Args, ","), 0, o.V)
+	case "call":
+		return fmt.Sprintf("call %d %d %s", o.I, o.P, o.V)
 	case "write":
 		return fmt.Sprintf("write %d %d %s", o.I, o.P, o.V)
 	case "read":
@@ -160,39 +246,209 @@ func tyList(args []string) string {
 	return strings.Join(s, ", ")
 }
 
-func (o op) script(n int) string {
+// expr: the PHP expression an operation evaluates, written over the receiver `recv` and the value `val`
+// (either literals or the parameters of the site).
+func (o op) expr(recv, val string) string {
+	switch o.K {
+	case "inst":
+		return fmt.Sprintf("new %s<%s>()", catalogue[o.C].Name, tyList(o.Args))
+	case "raw":
+		return fmt.Sprintf("new %s()", catalogue[o.C].Name)
+	case "ctor":
+		return fmt.Sprintf("new %s<%s>(%s)", catalogue[o.C].Name, tyList(o.Args), val)
+	case "read":
+		return fmt.Sprintf("%s->p%d", recv, o.P)
+	case "call":
+		return fmt.Sprintf("%s->take%d(%s)", recv, o.P, val)
+	}
+	return ""
+}
+
+// stmts: the statements of a write (the other kinds are expressions).
+func (o op) writeStmts(recv, val string) string {
+	switch o.Via {
+	case "method":
+		return fmt.Sprintf("%s->set%d(%s);", recv, o.P, val)
+	case "dyn":
+		return fmt.Sprintf("$nm = \"p%d\"; %s->$nm = %s;", o.P, recv, val)
+	}
+	return fmt.Sprintf("%s->p%d = %s;", recv, o.P, val)
+}
+
+func (o op) creates() bool { return o.K == "inst" || o.K == "raw" || o.K == "ctor" }
+
+// siteParams / siteBody: the shared site as a callable.
+func (o op) siteParams() string {
+	switch o.K {
+	case "inst", "raw":
+		return ""
+	case "ctor":
+		return "$x"
+	case "read":
+		return "$o"
+	}
+	return "$o, $x"
+}
+
+func (o op) siteBody() string {
+	if o.K == "write" {
+		return o.writeStmts("$o", "$x") + " return 1;"
+	}
+	return "return " + o.expr("$o", "$x") + ";"
+}
+
+// siteArgs: the arguments the operation passes to its shared site.
+func (o op) siteArgs() string {
+	switch o.K {
+	case "inst", "raw":
+		return ""
+	case "ctor":
+		return valScript[o.V]
+	case "read":
+		return fmt.Sprintf("$I[%d]", o.I)
+	}
+	return fmt.Sprintf("$I[%d], %s", o.I, valScript[o.V])
+}
+
+func invoke(mode string, site int, args string) string {
+	switch mode {
+	case "closure":
+		return fmt.Sprintf("$s%d(%s)", site, args)
+	case "method":
+		return fmt.Sprintf("$SO->s%d(%s)", site, args)
+	case "static":
+		return fmt.Sprintf("Sites::s%d(%s)", site, args)
+	}
+	return fmt.Sprintf("s%d(%s)", site, args)
+}
+
+// script of one operation as a top-level statement (modes other than loop).
+func (o op) script(n int, mode string) string {
 	catch := fmt.Sprintf(" } catch (\\Throwable $e) { echo \"\\n%d:ERR:\", $e->getMessage(), \"\\n\"; }\n", n)
 	created := fmt.Sprintf(" $I[] = $t; echo \"\\n%d:new\", count($I) - 1, \"\\n\";", n)
 	guard := func(body string) string {
 		return fmt.Sprintf("try { if (!isset($I[%d])) { echo \"\\n%d:noinst\\n\"; } else { %s }%s", o.I, n, body, catch)
 	}
+	recv := fmt.Sprintf("$I[%d]", o.I)
+	e := o.expr(recv, valScript[o.V])
+	if o.S > 0 {
+		e = invoke(mode, o.S, o.siteArgs())
+	}
 	switch o.K {
-	case "inst":
-		return fmt.Sprintf("try { $t = new %s<%s>();%s%s", catalogue[o.C].Name, tyList(o.Args), created, catch)
-	case "raw":
-		return fmt.Sprintf("try { $t = new %s();%s%s", catalogue[o.C].Name, created, catch)
-	case "ctor":
-		return fmt.Sprintf("try { $t = new %s<%s>(%s);%s%s", catalogue[o.C].Name, tyList(o.Args), valScript[o.V], created, catch)
+	case "inst", "raw", "ctor":
+		return fmt.Sprintf("try { $t = %s;%s%s", e, created, catch)
 	case "write":
-		ok := fmt.Sprintf(" echo \"\\n%d:ok\\n\";", n)
-		switch o.Via {
-		case "method":
-			return guard(fmt.Sprintf("$I[%d]->set%d(%s);%s", o.I, o.P, valScript[o.V], ok))
-		case "dyn":
-			return guard(fmt.Sprintf("$nm = \"p%d\"; $I[%d]->$nm = %s;%s", o.P, o.I, valScript[o.V], ok))
+		st := o.writeStmts(recv, valScript[o.V])
+		if o.S > 0 {
+			st = e + ";"
 		}
-		return guard(fmt.Sprintf("$I[%d]->p%d = %s;%s", o.I, o.P, valScript[o.V], ok))
+		return guard(fmt.Sprintf("%s echo \"\\n%d:ok\\n\";", st, n))
 	case "read":
-		return guard(fmt.Sprintf("$r = $I[%d]->p%d; echo \"\\n%d:read\\n\";", o.I, o.P, n))
+		return guard(fmt.Sprintf("$r = %s; echo \"\\n%d:read\\n\";", e, n))
+	case "call":
+		return guard(fmt.Sprintf("%s; echo \"\\n%d:ok\\n\";", e, n))
 	}
 	return ""
 }
 
-func script(ops []op) string {
+// branch: the operation as a branch of the dispatcher loop (mode loop); receiver $I[$i], value $x, number $n.
+func (o op) branch() string {
+	guard := func(body string) string {
+		return "if (!isset($I[$i])) { echo \"\\n\", $n, \":noinst\\n\"; } else { " + body + " }"
+	}
+	switch o.K {
+	case "inst", "raw", "ctor":
+		return "$t = " + o.expr("", "$x") + "; $I[] = $t; echo \"\\n\", $n, \":new\", count($I) - 1, \"\\n\";"
+	case "write":
+		return guard(o.writeStmts("$I[$i]", "$x") + " echo \"\\n\", $n, \":ok\\n\";")
+	case "read":
+		return guard("$r = " + o.expr("$I[$i]", "") + "; echo \"\\n\", $n, \":read\\n\";")
+	case "call":
+		return guard(o.expr("$I[$i]", "$x") + "; echo \"\\n\", $n, \":ok\\n\";")
+	}
+	return ""
+}
+
+// sites: the shared sites of a case in order of their number, each with the first operation that uses it.
+func sites(ops []op) ([]int, map[int]op) {
+	first := map[int]op{}
+	var ids []int
+	for _, o := range ops {
+		if o.S > 0 {
+			if _, ok := first[o.S]; !ok {
+				first[o.S] = o
+				ids = append(ids, o.S)
+			}
+		}
+	}
+	sort.Ints(ids)
+	return ids, first
+}
+
+func script(g gcase) string {
 	var sb strings.Builder
 	sb.WriteString(prelude())
-	for i, o := range ops {
-		sb.WriteString(o.script(i))
+	mode := g.mode()
+	ids, first := sites(g.Ops)
+	if mode == "loop" {
+		// the whole history is run by ONE loop; a shared site is one branch of its body, taken once per
+		// operation that uses the site; an operation with S = 0 has a branch of its own
+		sb.WriteString("$I = [];\n$prog = [")
+		branchOf := map[int]int{}
+		var branches []op
+		for _, id := range ids {
+			branchOf[id] = len(branches)
+			branches = append(branches, first[id])
+		}
+		for n, o := range g.Ops {
+			b, ok := branchOf[o.S]
+			if o.S == 0 || !ok {
+				b = len(branches)
+				branches = append(branches, o)
+			}
+			v := "0"
+			if o.V != "" {
+				v = valScript[o.V]
+			}
+			if n > 0 {
+				sb.WriteString(", ")
+			}
+			fmt.Fprintf(&sb, "[%d, %d, %s]", b, o.I, v)
+		}
+		sb.WriteString("];\nfor ($n = 0; $n < count($prog); $n++) {\n  $st = $prog[$n]; $f = $st[0]; $i = $st[1]; $x = $st[2];\n  try {\n")
+		for b, o := range branches {
+			kw := "elseif"
+			if b == 0 {
+				kw = "if"
+			}
+			fmt.Fprintf(&sb, "    %s ($f == %d) { %s }\n", kw, b, o.branch())
+		}
+		sb.WriteString("  } catch (\\Throwable $e) { echo \"\\n\", $n, \":ERR:\", $e->getMessage(), \"\\n\"; }\n}\n")
+		return sb.String()
+	}
+	switch mode {
+	case "closure":
+		for _, id := range ids {
+			fmt.Fprintf(&sb, "$s%d = function(%s) { %s };\n", id, first[id].siteParams(), first[id].siteBody())
+		}
+	case "method", "static":
+		kw := "public function"
+		if mode == "static" {
+			kw = "public static function"
+		}
+		sb.WriteString("class Sites {\n")
+		for _, id := range ids {
+			fmt.Fprintf(&sb, "  %s s%d(%s) { %s }\n", kw, id, first[id].siteParams(), first[id].siteBody())
+		}
+		sb.WriteString("}\n$SO = new Sites();\n")
+	default:
+		for _, id := range ids {
+			fmt.Fprintf(&sb, "function s%d(%s) { %s }\n", id, first[id].siteParams(), first[id].siteBody())
+		}
+	}
+	sb.WriteString("$I = [];\n")
+	for i, o := range g.Ops {
+		sb.WriteString(o.script(i, mode))
 	}
 	return sb.String()
 }
@@ -219,7 +475,7 @@ func outcomes(out vh.Outcome, n int) []string {
 		case strings.HasPrefix(t, "ERR:"):
 			msg := t[4:]
 			switch {
-			case strings.Contains(msg, "因为类型不一致无法赋值"):
+			case strings.Contains(msg, "因为类型不一致无法赋值"), strings.Contains(msg, "变量类型和赋值类型不一致"):
 				res[k] = "rej"
 			case strings.Contains(msg, "index out of range"):
 				res[k] = "crash"
@@ -274,6 +530,22 @@ func expectWrite(r creation, p int, v string) string {
 	return "rej"
 }
 
+// expectCall: what the object created as r must answer to `take<k>(v)`, `function take<k>(T_k $x)` —
+// from its own type arguments only; null is let through for every parameter type.
+func expectCall(r creation, k int, v string) string {
+	c := catalogue[r.cls]
+	if k >= len(c.Params) {
+		return "nomember"
+	}
+	if v == "null" || r.args == nil || k >= len(r.args) {
+		return "ok"
+	}
+	if tyAccepts(r.args[k], v) {
+		return "ok"
+	}
+	return "rej"
+}
+
 // expected outcomes of a whole history; also returns the creation records.
 func expected(ops []op) ([]string, []creation) {
 	var objs []creation
@@ -307,6 +579,12 @@ func expected(ops []op) ([]string, []creation) {
 			} else {
 				res[n] = "read"
 			}
+		case "call":
+			if o.I >= len(objs) {
+				res[n] = "noinst"
+			} else {
+				res[n] = expectCall(objs[o.I], o.P, o.V)
+			}
 		}
 	}
 	return res, objs
@@ -324,8 +602,8 @@ func creatorOf(ops []op, i int) int {
 	return -1
 }
 
-func runImpl(ops []op) []string {
-	return outcomes(vh.RunFresh(script(ops)), len(ops))
+func runImpl(g gcase) []string {
+	return outcomes(vh.RunFresh(script(g)), len(g.Ops))
 }
 
 // firstBad: first position where the implementation departs from the oracle (-1: none).
@@ -360,7 +638,7 @@ func kindOf(impl, exp string) string {
 func soloOps(ops []op, bad int) []op {
 	o := ops[bad]
 	switch o.K {
-	case "write", "read":
+	case "write", "read", "call":
 		cr := creatorOf(ops, o.I)
 		if cr < 0 {
 			return []op{o}
@@ -385,7 +663,7 @@ func remove(ops []op, k int) []op {
 		if n == k {
 			continue
 		}
-		if (o.K == "write" || o.K == "read") && gone >= 0 {
+		if (o.K == "write" || o.K == "read" || o.K == "call") && gone >= 0 {
 			if o.I == gone {
 				continue
 			}
@@ -398,38 +676,60 @@ func remove(ops []op, k int) []op {
 	return res
 }
 
-// shrink keeps the failing operation last and greedily drops earlier ones while the
-// implementation still departs from the oracle in the same way at the last operation.
-func shrink(ops []op, bad int, kind string) []op {
-	cur := append([]op{}, ops[:bad+1]...)
-	still := func(cand []op) bool {
-		if len(cand) == 0 {
+// fails: the implementation departs from the oracle at the LAST operation of g, in the given way, and
+// nowhere before (so the case shows one failure).
+func fails(g gcase, kind string) bool {
+	if len(g.Ops) == 0 {
+		return false
+	}
+	impl := runImpl(g)
+	exp, _ := expected(g.Ops)
+	last := len(g.Ops) - 1
+	for i := 0; i < last; i++ {
+		if impl[i] != exp[i] {
 			return false
 		}
-		impl := runImpl(cand)
-		exp, _ := expected(cand)
-		last := len(cand) - 1
-		for i := 0; i < last; i++ { // earlier operations must be fine, so the case shows one failure
-			if impl[i] != exp[i] {
-				return false
-			}
-		}
-		return impl[last] != exp[last] && kindOf(impl[last], exp[last]) == kind
 	}
+	return impl[last] != exp[last] && kindOf(impl[last], exp[last]) == kind
+}
+
+// shrink keeps the failing operation last and greedily drops earlier ones while the
+// implementation still departs from the oracle in the same way at the last operation; then it takes
+// operations off their shared sites (S = 0) as long as the failure stays.
+func shrink(g gcase, bad int, kind string) gcase {
+	cur := gcase{Ops: append([]op{}, g.Ops[:bad+1]...), Mode: g.Mode}
 	for changed := true; changed; {
 		changed = false
-		for k := len(cur) - 2; k >= 0; k-- {
-			cand := remove(cur, k)
+		for k := len(cur.Ops) - 2; k >= 0; k-- {
+			cand := gcase{Ops: remove(cur.Ops, k), Mode: cur.Mode}
 			// the failing operation must survive
-			if len(cand) == 0 || cand[len(cand)-1].K != cur[len(cur)-1].K {
+			if len(cand.Ops) == 0 || cand.Ops[len(cand.Ops)-1].K != cur.Ops[len(cur.Ops)-1].K {
 				continue
 			}
-			if still(cand) {
+			if fails(cand, kind) {
 				cur = cand
 				changed = true
 				break
 			}
 		}
+	}
+	if cur.sited() {
+		if st := (gcase{Ops: straight(cur.Ops)}); fails(st, kind) {
+			return st // does not need a re-executed site at all
+		}
+		for k := range cur.Ops {
+			if cur.Ops[k].S == 0 {
+				continue
+			}
+			cand := gcase{Ops: append([]op{}, cur.Ops...), Mode: cur.Mode}
+			cand.Ops[k].S = 0
+			if fails(cand, kind) {
+				cur = cand
+			}
+		}
+	}
+	if !cur.sited() {
+		cur.Mode = ""
 	}
 	return cur
 }
@@ -443,26 +743,82 @@ type runner struct {
 	batch    []gcase
 	stopped  bool
 	sharedOK int
+	rot      int // rotation over siteModes
+	nSited   int // sited renderings added by emitPlain
+}
+
+func recordOf(r creation) string {
+	if r.args == nil {
+		return fmt.Sprintf("%d/raw", r.cls)
+	}
+	return fmt.Sprintf("%d/%s", r.cls, strings.Join(r.args, ","))
+}
+
+// siteOfObject: the shared site (0 = none) whose execution created object i.
+func siteOfObject(ops []op, i int) int {
+	if cr := creatorOf(ops, i); cr >= 0 {
+		return ops[cr].S
+	}
+	return 0
 }
 
 func nontrivial(ops []op) bool {
-	// at least two objects of one class created with different arguments, and a typed write
-	_, objs := expected(ops)
+	// at least two objects of one class that were created with different arguments or by two executions
+	// of one shared site, and a typed store / call
+	exp, objs := expected(ops)
 	diff := false
 	for i := range objs {
 		for j := i + 1; j < len(objs); j++ {
-			if objs[i].cls == objs[j].cls && strings.Join(objs[i].args, ",") != strings.Join(objs[j].args, ",") {
+			if objs[i].cls == objs[j].cls && recordOf(objs[i]) != recordOf(objs[j]) {
 				diff = true
+			}
+		}
+	}
+	if !diff {
+		seen := map[int]bool{}
+		for n, o := range ops {
+			if o.creates() && o.S > 0 && strings.HasPrefix(exp[n], "new") {
+				if seen[o.S] {
+					diff = true
+				}
+				seen[o.S] = true
 			}
 		}
 	}
 	w := false
 	for _, o := range ops {
-		if o.K == "write" || o.K == "ctor" {
+		if o.K == "write" || o.K == "ctor" || o.K == "call" {
 			w = true
 		}
 	}
 	return diff && w
+}
+
+// twins: the pairwise oracle, independent of any expectation. Two objects created with the same class
+// and the same written type arguments must give the same answer to the same typed store / call
+// (same member, same value kind), wherever in the history the two questions are asked. Returns the first
+// pair of operations that disagree.
+func twins(ops []op, impl []string) (int, int, bool) {
+	_, objs := expected(ops)
+	for n2, o2 := range ops {
+		if (o2.K != "write" && o2.K != "call") || o2.I >= len(objs) {
+			continue
+		}
+		for n1 := 0; n1 < n2; n1++ {
+			o1 := ops[n1]
+			if o1.K != o2.K || o1.P != o2.P || o1.V != o2.V || o1.I >= len(objs) || o1.I == o2.I {
+				continue
+			}
+			if recordOf(objs[o1.I]) != recordOf(objs[o2.I]) {
+				continue
+			}
+			a, b := impl[n1], impl[n2]
+			if (a == "ok" || a == "rej") && (b == "ok" || b == "rej") && a != b {
+				return n1, n2, true
+			}
+		}
+	}
+	return 0, 0, false
 }
 
 func (r *runner) add(g gcase) {
@@ -475,6 +831,18 @@ func (r *runner) add(g gcase) {
 	}
 }
 
+func opsText(g gcase) string {
+	t := strings.Join(strings.Split(modelLine("gen", g.Ops), "\t")[2:], "")
+	if g.sited() {
+		var ss []string
+		for _, o := range g.Ops {
+			ss = append(ss, strconv.Itoa(o.S))
+		}
+		t += " [shared sites realised as " + g.mode() + "; site of each operation: " + strings.Join(ss, ",") + "]"
+	}
+	return t
+}
+
 func (r *runner) flush() {
 	c := r.c
 	if len(r.batch) == 0 {
@@ -483,7 +851,7 @@ func (r *runner) flush() {
 	impls := make([][]string, len(r.batch))
 	lines := make([]string, len(r.batch))
 	for bi, g := range r.batch {
-		impls[bi] = runImpl(g.Ops)
+		impls[bi] = runImpl(g)
 		lines[bi] = modelLine("gen", g.Ops)
 	}
 	var answers []string
@@ -501,11 +869,24 @@ func (r *runner) flush() {
 		impl := impls[bi]
 		exp, _ := expected(g.Ops)
 		key := lines[bi]
+		sited := g.sited()
+		if sited {
+			key += "@" + g.mode()
+		}
 		for _, o := range g.Ops {
 			key += "/" + o.Via
+			if sited {
+				key += strconv.Itoa(o.S)
+			}
 		}
 		c.Eval(key, nontrivial(g.Ops))
 		c.Hit(fmt.Sprintf("len=%d", len(g.Ops)))
+		if sited {
+			c.Hit("sites:" + g.mode())
+		} else {
+			c.Hit("sites:none")
+		}
+		execs := map[int]int{}
 		for n, o := range g.Ops {
 			t := impl[n]
 			if strings.HasPrefix(t, "new") {
@@ -517,9 +898,17 @@ func (r *runner) flush() {
 			if o.K == "write" && o.Via != "" {
 				h += "-" + o.Via
 			}
+			if o.S > 0 {
+				execs[o.S]++
+				if execs[o.S] > 1 {
+					h += "@re-executed"
+				} else {
+					h += "@site"
+				}
+			}
 			c.Hit(h + ":" + t)
 		}
-		c.SampleSome(map[string]any{"ops": strings.Join(strings.Split(lines[bi], "\t")[2:], ""), "impl": strings.Join(impl, " ")}, 1009)
+		c.SampleSome(map[string]any{"ops": opsText(g), "impl": strings.Join(impl, " ")}, 1009)
 		// correspondence with the Lean model
 		if answers != nil {
 			got := strings.Join(impl, " ")
@@ -528,12 +917,23 @@ func (r *runner) flush() {
 				if sh, err := r.m.Ask(modelLine("shared", g.Ops)); err == nil && sh == got {
 					note += "; the implementation agrees with Model.Gen.runShared (property lookup overwrites the declaration shared by all instantiations)"
 				}
+				if sited {
+					if st := strings.Join(runImpl(gcase{Ops: straight(g.Ops)}), " "); st == answers[bi] {
+						note += "; the same history written as straight-line statements agrees with the model (the difference needs a re-executed site, realised as " + g.mode() + ")"
+					}
+				}
 				c.Mismatch(g, got, answers[bi], note)
 			}
 		}
 		// the property itself, judged by the oracle
 		if bad := firstBad(impl, exp); bad >= 0 {
-			r.violation(g.Ops, bad, impl, exp)
+			r.violation(g, bad, impl, exp)
+		} else if n1, n2, differ := twins(g.Ops, impl); differ {
+			// cannot happen while the expectation oracle is a function of the creation record; kept as an
+			// independent statement of "same class, same arguments ⇒ same answers"
+			what := fmt.Sprintf("history %q: objects %d and %d were created with the same class and type arguments, but operation %d (%s) answered %q and operation %d (%s) answered %q",
+				opsText(g), g.Ops[n1].I, g.Ops[n2].I, n1, g.Ops[n1].model(), impl[n1], n2, g.Ops[n2].model(), impl[n2])
+			c.Violation("gen:twins-differ", what, gcase{Ops: append([]op{}, g.Ops[:n2+1]...), Mode: g.Mode})
 		}
 	}
 	r.batch = r.batch[:0]
@@ -543,30 +943,64 @@ func (r *runner) flush() {
 	}
 }
 
-func (r *runner) violation(ops []op, bad int, impl, exp []string) {
+func (r *runner) violation(g gcase, bad int, impl, exp []string) {
 	kind := kindOf(impl[bad], exp[bad])
-	cas := gcase{Ops: append([]op{}, ops[:bad+1]...)}
+	cas := gcase{Ops: append([]op{}, g.Ops[:bad+1]...), Mode: g.Mode}
+	if !cas.sited() {
+		cas.Mode = ""
+	}
 	scope := "solo"
 	if r.shrunk[kind] < 3 {
 		r.shrunk[kind]++
-		cas.Ops = shrink(ops, bad, kind)
+		cas = shrink(g, bad, kind)
 	}
-	// solo-run comparison: does the same object answer correctly when it is alone?
 	last := len(cas.Ops) - 1
-	solo := soloOps(cas.Ops, last)
-	if len(solo) < len(cas.Ops) {
-		si := runImpl(solo)
-		se, _ := expected(solo)
-		if si[len(solo)-1] == se[len(solo)-1] {
-			scope = "order-dependent"
-		}
+	rightAlone := func(t gcase) bool {
+		ti := runImpl(t)
+		te, _ := expected(t.Ops)
+		return ti[len(t.Ops)-1] == te[len(t.Ops)-1]
 	}
-	ci := runImpl(cas.Ops)
+	if cas.sited() && rightAlone(gcase{Ops: straight(cas.Ops)}) {
+		// the same history as straight-line statements (every AST node executed once) answers correctly
+		scope = "re-executed-site"
+	} else if solo := soloOps(cas.Ops, last); len(solo) < len(cas.Ops) && rightAlone(gcase{Ops: solo, Mode: cas.Mode}) {
+		// solo-run comparison: the same object answers correctly when it is alone
+		scope = "order-dependent"
+	}
+	ci := runImpl(cas)
 	ce, _ := expected(cas.Ops)
 	what := fmt.Sprintf("history %q: operation %d (%s) answered %q, the object's own type arguments prescribe %q",
-		strings.Join(strings.Split(modelLine("gen", cas.Ops), "\t")[2:], ""), last, cas.Ops[last].model(), ci[last], ce[last])
-	if scope == "order-dependent" {
+		opsText(cas), last, cas.Ops[last].model(), ci[last], ce[last])
+	switch scope {
+	case "order-dependent":
 		what += "; the same object answers correctly when no other instantiation / lookup precedes it"
+	case "re-executed-site":
+		what += "; the same history answers correctly when every operation is a statement of its own — the failure needs code that is executed more than once (" + cas.mode() + ")"
+		if n1, n2, differ := twins(cas.Ops, ci); differ {
+			what += fmt.Sprintf("; objects %d and %d were created with the same class and type arguments", cas.Ops[n1].I, cas.Ops[n2].I)
+			if s1 := siteOfObject(cas.Ops, cas.Ops[n1].I); s1 > 0 && s1 == siteOfObject(cas.Ops, cas.Ops[n2].I) {
+				what += " by two executions of the same `new` expression"
+			}
+			what += fmt.Sprintf(" and answer the same question differently (operation %d: %q, operation %d: %q)", n1, ci[n1], n2, ci[n2])
+		} else if lo := cas.Ops[last]; lo.K == "write" || lo.K == "call" {
+			// pairwise probe: put the same question to an earlier object with the same creation record
+			_, objs := expected(cas.Ops)
+			for i := 0; i < len(objs) && lo.I < len(objs); i++ {
+				if i == lo.I || recordOf(objs[i]) != recordOf(objs[lo.I]) {
+					continue
+				}
+				q := lo
+				q.I = i
+				probe := gcase{Ops: append(append([]op{}, cas.Ops...), q), Mode: cas.Mode}
+				pi := runImpl(probe)
+				how := "with the same class and type arguments"
+				if s1 := siteOfObject(cas.Ops, i); s1 > 0 && s1 == siteOfObject(cas.Ops, lo.I) {
+					how += " by another execution of the same `new` expression"
+				}
+				what += fmt.Sprintf("; object %d, created %s, answers %q to the same question (asked right after)", i, how, pi[len(pi)-1])
+				break
+			}
+		}
 	}
 	r.c.Violation("gen:"+scope+":"+kind, what, cas)
 }
@@ -578,7 +1012,7 @@ var vals5 = []string{"int", "string", "array", "o0", "o1"}
 var vias = []string{"", "", "method", "dyn"}
 
 // enumerate all histories up to maxLen over the alphabet produced by next(live objects).
-func enumerate(r *runner, maxLen int, alphabet func(live int) []op, creates func(o op) bool) int {
+func enumerate(r *runner, maxLen int, alphabet func(live int) []op, creates func(o op) bool, emit func(ops []op)) int {
 	count := 0
 	var rec func(prefix []op, live int)
 	rec = func(prefix []op, live int) {
@@ -592,7 +1026,7 @@ func enumerate(r *runner, maxLen int, alphabet func(live int) []op, creates func
 					ops[i].Via = vh.Pick(r.c.Rand, vias)
 				}
 			}
-			r.add(gcase{Ops: ops})
+			emit(ops)
 			count++
 		}
 		if len(prefix) == maxLen {
@@ -608,6 +1042,83 @@ func enumerate(r *runner, maxLen int, alphabet func(live int) []op, creates func
 	}
 	rec(nil, 0)
 	return count
+}
+
+// emitPlain: the history as straight-line statements (every AST node runs once); when some `new` text
+// occurs twice in it, ALSO with every operation executed through a shared site (one site per distinct
+// text, so that `new` node runs twice), the realisation of the sites rotating over siteModes.
+func (r *runner) emitPlain(ops []op) {
+	r.add(gcase{Ops: ops})
+	if repeatedCreation(ops) {
+		r.rot++
+		r.nSited++
+		r.add(gcase{Ops: canonical(ops), Mode: siteModes[r.rot%len(siteModes)]})
+	}
+}
+
+// emitSited: straight-line, and every operation through a shared site — in every realisation up to length
+// allUpTo, in one (rotating) realisation beyond.
+func (r *runner) emitSited(allUpTo int) func(ops []op) {
+	return func(ops []op) {
+		r.add(gcase{Ops: ops})
+		cs := canonical(ops)
+		if len(ops) <= allUpTo {
+			for _, m := range siteModes {
+				r.add(gcase{Ops: cs, Mode: m})
+			}
+			return
+		}
+		r.rot++
+		r.add(gcase{Ops: cs, Mode: siteModes[r.rot%len(siteModes)]})
+	}
+}
+
+// site family 1: Box<int>, Box<string>, raw Box; per live object: p0 <- int|string, read p0, take0(int|string)
+func alphabetSiteBox(live int) []op {
+	a := []op{{K: "inst", C: 0, Args: []string{"int"}}, {K: "inst", C: 0, Args: []string{"string"}}, {K: "raw", C: 0}}
+	for i := 0; i < live; i++ {
+		for _, v := range []string{"int", "string"} {
+			a = append(a, op{K: "write", I: i, P: 0, V: v})
+		}
+		a = append(a, op{K: "read", I: i, P: 0})
+		for _, v := range []string{"int", "string"} {
+			a = append(a, op{K: "call", I: i, P: 0, V: v})
+		}
+	}
+	return a
+}
+
+// site family 2: Pair<int,string>, Pair<string,int>, Pair<int,int>; per live object: p0|p1 <- int|string, take0|take1(string)
+func alphabetSitePair(live int) []op {
+	a := []op{{K: "inst", C: 1, Args: []string{"int", "string"}}, {K: "inst", C: 1, Args: []string{"string", "int"}}, {K: "inst", C: 1, Args: []string{"int", "int"}}}
+	for i := 0; i < live; i++ {
+		for p := 0; p < 2; p++ {
+			for _, v := range []string{"int", "string"} {
+				a = append(a, op{K: "write", I: i, P: p, V: v})
+			}
+			a = append(a, op{K: "call", I: i, P: p, V: "string"})
+		}
+	}
+	return a
+}
+
+// site family 3: CBox<int>(v), CBox<string>(v) with v int|string (two `new` sites, the value is their
+// parameter: a rejected construction and an accepted one run through the same node); per live object p0|p1 <- int|string
+func alphabetSiteCtor(live int) []op {
+	var a []op
+	for _, t := range []string{"int", "string"} {
+		for _, v := range []string{"int", "string"} {
+			a = append(a, op{K: "ctor", C: 2, Args: []string{t}, V: v})
+		}
+	}
+	for i := 0; i < live; i++ {
+		for p := 0; p < 2; p++ {
+			for _, v := range []string{"int", "string"} {
+				a = append(a, op{K: "write", I: i, P: p, V: v})
+			}
+		}
+	}
+	return a
 }
 
 // family 1: one type parameter (Box<T>), member p0 : T
@@ -679,13 +1190,17 @@ func createsOp(o op) bool {
 var typesAll = []string{"int", "string", "array", "c0", "c1"}
 var valsAll = []string{"int", "string", "array", "o0", "o1", "null", "float", "bool"}
 
-func randomCase(rd *vh.Rand, n int) gcase {
+func randomCase(rd *vh.Rand, n int, sited bool) gcase {
 	var ops []op
-	live := 0
+	var liveCls []int
+	var news []op // creations so far (a sited history repeats them: the same `new` text again)
 	for len(ops) < n {
+		live := len(liveCls)
 		x := rd.Intn(100)
 		var o op
 		switch {
+		case sited && len(news) > 0 && x < 14:
+			o = vh.Pick(rd, news)
 		case live == 0 || x < 30:
 			c := vh.Pick(rd, []int{0, 0, 1, 1, 3})
 			k := len(catalogue[c].Params)
@@ -706,7 +1221,7 @@ func randomCase(rd *vh.Rand, n int) gcase {
 			o = op{K: "raw", C: vh.Pick(rd, []int{0, 1, 3})}
 		case x < 48:
 			o = op{K: "ctor", C: 2, Args: []string{vh.Pick(rd, typesAll)}, V: vh.Pick(rd, valsAll)}
-		case x < 90:
+		case x < 82:
 			i := rd.Intn(live)
 			if rd.Chance(3) {
 				i = live + rd.Intn(2)
@@ -715,15 +1230,40 @@ func randomCase(rd *vh.Rand, n int) gcase {
 			if o.Via == "method" && o.P >= 2 { // set<p> exists only for declared members of every class up to p1
 				o.Via = ""
 			}
+		case x < 92:
+			i := rd.Intn(live)
+			o = op{K: "call", I: i, P: rd.Intn(len(catalogue[liveCls[i]].Params)), V: vh.Pick(rd, valsAll)}
 		default:
 			o = op{K: "read", I: rd.Intn(live), P: vh.Pick(rd, []int{0, 1})}
 		}
 		ops = append(ops, o)
+		if o.creates() {
+			news = append(news, o)
+		}
 		if createsOp(o) {
-			live++
+			liveCls = append(liveCls, o.C)
 		}
 	}
-	return gcase{Ops: ops}
+	if !sited {
+		return gcase{Ops: ops}
+	}
+	// sites: mostly one per text; sometimes a second site with the same text, sometimes a statement of its own
+	ids := map[string][]int{}
+	next := 1
+	for i := range ops {
+		t := ops[i].siteText()
+		switch {
+		case rd.Chance(7):
+			ops[i].S = 0
+		case len(ids[t]) == 0 || (len(ids[t]) == 1 && rd.Chance(6)):
+			ids[t] = append(ids[t], next)
+			ops[i].S = next
+			next++
+		default:
+			ops[i].S = vh.Pick(rd, ids[t])
+		}
+	}
+	return gcase{Ops: ops, Mode: vh.Pick(rd, siteModes)}
 }
 
 // The negation witnesses proved in Lean (Proofs/Properties/C19.lean, `witness`) and the
@@ -736,6 +1276,25 @@ func witnesses() []gcase {
 		{Ops: []op{{K: "ctor", C: 2, Args: []string{"int"}, V: "int"}, {K: "ctor", C: 2, Args: []string{"string"}, V: "string"}}},
 		{Ops: []op{{K: "inst", C: 1, Args: []string{"int", "string"}}, {K: "write", I: 0, P: 1, V: "string", Via: "method"}, {K: "inst", C: 1, Args: []string{"string", "int"}}, {K: "write", I: 1, P: 1, V: "int", Via: "dyn"}}},
 	}
+}
+
+// sitedWitnesses: one `new Box<int>()` node executed three times with a Box<string> and a raw Box in
+// between, every object then asked the same questions through shared write / call sites — in every
+// realisation of the sites. They run first too.
+func sitedWitnesses() []gcase {
+	ops := []op{{K: "inst", C: 0, Args: []string{"int"}, S: 1}, {K: "inst", C: 0, Args: []string{"string"}, S: 2}, {K: "inst", C: 0, Args: []string{"int"}, S: 1},
+		{K: "raw", C: 0, S: 3}, {K: "inst", C: 0, Args: []string{"int"}, S: 1}, {K: "raw", C: 0, S: 3}}
+	for i := 0; i < 6; i++ {
+		ops = append(ops, op{K: "write", I: i, P: 0, V: "string", S: 4}, op{K: "write", I: i, P: 0, V: "int", Via: "method", S: 5},
+			op{K: "call", I: i, P: 0, V: "string", S: 6}, op{K: "read", I: i, P: 0, S: 7})
+	}
+	ops = append(ops, op{K: "ctor", C: 2, Args: []string{"int"}, V: "string", S: 8}, op{K: "ctor", C: 2, Args: []string{"int"}, V: "int", S: 8},
+		op{K: "ctor", C: 2, Args: []string{"int"}, V: "int", S: 8}, op{K: "write", I: 7, P: 1, V: "string", Via: "dyn", S: 9}, op{K: "write", I: 6, P: 1, V: "int", Via: "dyn", S: 9})
+	var res []gcase
+	for _, m := range siteModes {
+		res = append(res, gcase{Ops: append([]op{}, ops...), Mode: m})
+	}
+	return res
 }
 
 func corpus(c *vh.Ctx) []gcase {
@@ -758,6 +1317,28 @@ func corpus(c *vh.Ctx) []gcase {
 }
 
 func valid(g gcase) bool {
+	if g.Mode != "" {
+		ok := false
+		for _, m := range siteModes {
+			ok = ok || m == g.Mode
+		}
+		if !ok {
+			return false
+		}
+	}
+	text := map[int]string{}
+	for _, o := range g.Ops {
+		if o.S < 0 {
+			return false
+		}
+		if o.S > 0 { // a site has one text
+			if t, seen := text[o.S]; seen && t != o.siteText() {
+				return false
+			}
+			text[o.S] = o.siteText()
+		}
+	}
+	_, objs := expected(g.Ops)
 	for _, o := range g.Ops {
 		switch o.K {
 		case "inst", "raw", "ctor":
@@ -783,6 +1364,10 @@ func valid(g gcase) bool {
 			if o.I < 0 || o.P < 0 {
 				return false
 			}
+		case "call": // take<P> exists on the receiver's class
+			if valScript[o.V] == "" || o.I < 0 || o.P < 0 || (o.I < len(objs) && o.P >= len(catalogue[objs[o.I].cls].Params)) {
+				return false
+			}
 		default:
 			return false
 		}
@@ -800,6 +1385,11 @@ func matrix(r *runner) {
 				r.add(gcase{Ops: []op{{K: "inst", C: 0, Args: []string{t}}, {K: "write", I: 0, P: 0, V: v, Via: via}}})
 			}
 			r.add(gcase{Ops: []op{{K: "ctor", C: 2, Args: []string{t}, V: v}}})
+			// a method parameter declared with the type parameter, alone and on the second object of a re-executed `new`
+			r.add(gcase{Ops: []op{{K: "inst", C: 0, Args: []string{t}}, {K: "call", I: 0, P: 0, V: v}}})
+			r.add(gcase{Ops: []op{{K: "inst", C: 3, Args: []string{"int", t}}, {K: "call", I: 0, P: 1, V: v}}})
+			r.rot++
+			r.add(gcase{Ops: []op{{K: "inst", C: 0, Args: []string{t}, S: 1}, {K: "inst", C: 0, Args: []string{t}, S: 1}, {K: "write", I: 1, P: 0, V: v, S: 2}, {K: "call", I: 1, P: 0, V: v, S: 3}}, Mode: siteModes[r.rot%len(siteModes)]})
 		}
 	}
 	// concrete / untyped / undeclared members of every class
@@ -881,9 +1471,12 @@ func Run(c *vh.Ctx) {
 		r.flush()
 		return
 	}
-	c.Res.Rule = "a case = one history over the catalogue Box<T>, Pair<K,V>, CBox<T> (constructor stores its argument), Swap<A,B>, run as one script on a fresh VM; non-trivial = at least two objects of the same generic class created with different type arguments and at least one typed write; distinct = distinct operation sequence incl. write form"
+	c.Res.Rule = "a case = one history over the catalogue Box<T>, Pair<K,V>, CBox<T> (constructor stores its argument), Swap<A,B> (every class with set<p>($x) and take<k>(T_k $x) methods), run as one script on a fresh VM; every operation is a statement of its own or runs through a shared site (function / closure / method / static method / branch of one dispatcher loop) that the history executes repeatedly; non-trivial = at least two objects of the same generic class created with different type arguments or by two executions of one shared `new` site, and at least one typed write / constructor store / T-parameter call; distinct = distinct operation sequence incl. write form, site of every operation and realisation of the sites"
 	knownStream(c)
 	for _, g := range witnesses() {
+		r.add(g)
+	}
+	for _, g := range sitedWitnesses() {
 		r.add(g)
 	}
 	for _, g := range corpus(c) {
@@ -892,24 +1485,32 @@ func Run(c *vh.Ctx) {
 	r.flush()
 	matrix(r)
 	r.flush()
-	n1 := enumerate(r, 4, alphabetBox, createsOp)
-	n2 := enumerate(r, 3, alphabetPairOver(types4), createsOp)
-	n3 := enumerate(r, 3, alphabetCtor, createsOp)
+	// histories designed around re-execution: every operation through a shared site
+	s1 := enumerate(r, c.N(4, 5), alphabetSiteBox, createsOp, r.emitSited(c.N(3, 4)))
+	s2 := enumerate(r, c.N(3, 4), alphabetSitePair, createsOp, r.emitSited(c.N(2, 3)))
+	s3 := enumerate(r, c.N(3, 4), alphabetSiteCtor, createsOp, r.emitSited(c.N(3, 3)))
+	r.flush()
+	n1 := enumerate(r, 4, alphabetBox, createsOp, r.emitPlain)
+	n2 := enumerate(r, 3, alphabetPairOver(types4), createsOp, r.emitPlain)
+	n3 := enumerate(r, 3, alphabetCtor, createsOp, r.emitPlain)
 	n4 := 0
 	if c.Thorough() {
-		n4 = enumerate(r, 4, alphabetPairOver([]string{"int", "string", "c0"}), createsOp)
+		n4 = enumerate(r, 4, alphabetPairOver([]string{"int", "string", "c0"}), createsOp, r.emitPlain)
 	}
 	r.flush()
 	if !r.stopped {
 		c.Res.Exhaustive = true
-		c.Res.ExhaustiveWhat = fmt.Sprintf("all histories of length <= 4 over Box<T> (T in {int,string,array,U0}: 4 instantiations + raw; per live object 5 value kinds written to the T member + a read): %d; all histories of length <= 3 over Pair<K,V> (K,V in {int,string,array,U0}: 16 instantiations; per live object 2 members x 5 value kinds): %d; all histories of length <= 3 over CBox<T>(v) (16 constructor calls; per live object 3 value kinds): %d; the full type-argument x value-kind matrix on a single object in every write form", n1, n2, n3)
+		c.Res.ExhaustiveWhat = fmt.Sprintf("all histories of length <= 4 over Box<T> (T in {int,string,array,U0}: 4 instantiations + raw; per live object 5 value kinds written to the T member + a read): %d; all histories of length <= 3 over Pair<K,V> (K,V in {int,string,array,U0}: 16 instantiations; per live object 2 members x 5 value kinds): %d; all histories of length <= 3 over CBox<T>(v) (16 constructor calls; per live object 3 value kinds): %d; the full type-argument x value-kind matrix on a single object in every write form and for a T parameter", n1, n2, n3)
 		if n4 > 0 {
 			c.Res.ExhaustiveWhat += fmt.Sprintf("; all histories of length <= 4 over Pair<K,V> with K,V in {int,string,U0} (9 instantiations): %d", n4)
 		}
+		c.Res.ExhaustiveWhat += fmt.Sprintf("; each of those histories in which a `new` text occurs twice additionally with every operation through a shared re-executed site (%d renderings, realisation rotating over function/closure/method/static method/loop branch)", r.nSited)
+		c.Res.ExhaustiveWhat += fmt.Sprintf("; re-execution families, every history as straight-line statements AND with every operation through a shared site (one site per distinct text), in all 5 realisations up to length k and one rotating realisation beyond: Box<int>|Box<string>|raw Box with p0 <- int|string, read, take0(int|string), length <= %d (k=%d): %d histories; Pair<int,string>|Pair<string,int>|Pair<int,int> with p0|p1 <- int|string, take0|take1(string), length <= %d (k=%d): %d; CBox<int|string>(int|string) (2 `new` sites, value passed in) with p0|p1 <- int|string, length <= %d (k=%d): %d",
+			c.N(4, 5), c.N(3, 4), s1, c.N(3, 4), c.N(2, 3), s2, c.N(3, 4), c.N(3, 3), s3)
 	}
-	// seeded longer / mixed histories
-	for i := 0; i < c.N(2000, 200000) && !r.stopped; i++ {
-		r.add(randomCase(c.Rand, c.Rand.Range(4, 9)))
+	// seeded longer / mixed histories, half of them with shared sites
+	for i := 0; i < c.N(2400, 240000) && !r.stopped; i++ {
+		r.add(randomCase(c.Rand, c.Rand.Range(4, 9), i%2 == 1))
 	}
 	r.flush()
 	if r.m != nil {
